@@ -210,7 +210,7 @@ def shrink_paths(scenario):
     return [("script",), ("envs", 0, "events")]
 
 
-from tesim.props.c04 import simplify  # noqa: E402,F401
+from tesim.props.c04 import simplify, in_domain  # noqa: E402,F401
 
 
 generate = gen_epi.with_backtest_driver(generate, 0.2)
